@@ -27,9 +27,17 @@ RULE = ('process programs (declared nested inputs with defaults, nested and dyna
 RULE += ('; also: save points at every quiescent point and right after each request, processes with a custom state codec, input values mutated after construction, the bundles of one save point loaded through one reused load context')
 ASSUMPTIONS = ['bundles compared structurally: exceptions by type and args, mappings order-insensitively, the traceback text of an excepted state ignored',
                'a WorkChain waiting on futures / children cannot be saved and is not a save point', 'listeners are not attached (they would be persisted)']
-REQUIRED = ['roundtrips', 'medium/copy', 'medium/pickle', 'medium/yaml', 'loader/default', 'loader/custom', 'points/created', 'points/running', 'points/waiting',
+REQUIRED = ['points/entering', 'roundtrips', 'medium/copy', 'medium/pickle', 'medium/yaml', 'loader/default', 'loader/custom', 'points/created', 'points/running', 'points/waiting',
             'points/finished', 'points/excepted', 'points/killed', 'points/paused', 'points/after-cancel_future', 'points/q-killed', 'points/q-excepted', 'points/q-finished', 'points/q-waiting', 'kinds/process', 'kinds/outline', 'stepper_states', 'accessors_compared', 'codec_processes']
 BOUNDS = {'quick': '10 programs x 4 plans + 40 outlines, all save points, 6 round trips each', 'thorough': '+60 random programs, 400 outlines'}
+
+
+_TICKETS = [100]
+
+
+def _next_ticket():
+    _TICKETS[0] += 1
+    return _TICKETS[0]
 
 
 class InProg(plumpy.ContextMixin, programs.ProgBase):
@@ -43,6 +51,9 @@ class InProg(plumpy.ContextMixin, programs.ProgBase):
         spec.input('ns.deep.c', default=[1, 2])
         spec.input_namespace('lazy', populate_defaults=False, required=False)
         spec.input('lazy.z', default=9)
+        # a default that is computed when the process is constructed, and differs from one call to the next ("the next free
+        # ticket"): the value the process was constructed with is part of its state, a load does not draw another one
+        spec.input('ticket', default=_next_ticket)
         spec.output('declared', required=False)
         spec.output_namespace('outns', dynamic=True, required=False)
 
@@ -85,7 +96,7 @@ def _programs(tier, seed):
     return progs
 
 
-INPUTS = [None, {'a': 7}, {'a': 1, 'ns': {'b': 's', 'deep': {'c': {'m': [1]}}}, 'lazy': {}, 'extra_dyn': 'e'}]
+INPUTS = [None, {'a': 7}, {'a': 1, 'ns': {'b': 's', 'deep': {'c': {'m': [1]}}}, 'lazy': {}, 'extra_dyn': 'e'}, {}]  # ({}: given, and empty)
 PIDS = [None, 12, 'strpid', 'uuid']
 
 
@@ -100,7 +111,7 @@ def gen_cases(tier, seed):
                  [{'at': max(1, ns // 2), 'act': ['cancel_future']}], [{'at': 0, 'act': ['cancel_future']}], [{'at': 'q', 'act': ['cancel_future']}]]
         for plan in plist:
             n += 1
-            yield {'kind': 'process', 'name': name, 'program': prog, 'plan': plan, 'inputs': INPUTS[n % 3], 'pid': PIDS[n % 4], 'codec': n % 5 in (1, 3)}
+            yield {'kind': 'process', 'name': name, 'program': prog, 'plan': plan, 'inputs': INPUTS[n % 4], 'pid': PIDS[n % 4], 'codec': n % 5 in (1, 3)}
     for i in range(40 if tier == 'quick' else 400):
         ast = outlines.random_ast(rng, rng.randint(1, 3), max_body=3)
         preds = [rng.random() < 0.6 for _ in range(rng.randint(0, 8))]
@@ -238,7 +249,12 @@ class SaveRun(lifecycle.Run):
         if pid == 'uuid':
             pid = uuid.UUID(int=5)
         inputs = self.case['inputs']
-        return cls(inputs=copy.deepcopy(inputs) if inputs is not None else None, pid=pid, loop=loop)
+        proc = cls(inputs=copy.deepcopy(inputs) if inputs is not None else None, pid=pid, loop=loop)
+        # save points between two states too: a subclass may checkpoint itself from its on_run / on_wait / on_finish ... hooks, i.e.
+        # after the old state was left and before the new one is entered
+        from plumpy.base.state_machine import StateEventHook
+        proc.add_state_event_callback(StateEventHook.ENTERING_STATE, lambda sm, _hook, state: self.sp.at(sm, 'entering'))
+        return proc
 
     def apply(self, act, via='slot', plan_idx=None):
         entry = super().apply(act, via, plan_idx)
